@@ -4,6 +4,6 @@ CONSTANTS
   Full = TRUE
   TamperLen = 100
   Lens = {0, 1, 7, 8, 9, 15, 16, 17, 100, 4096, 65536}
-  Passwords = {"empty", "ascii", "utf8", "long", "bmp_edge"}
-  WrongPwd = {"char", "case", "longer", "shorter", "empty", "other"}
+  Passwords = {"empty", "ascii", "utf8", "long", "bmp_edge", "badutf8"}
+  WrongPwd = {"char", "case", "longer", "shorter", "empty", "other", "lowbyte", "badbyte"}
 INVARIANTS RecipientsRecover OnlyRecipients VerifiesExactlyWhenGenuine BundleOnlyWithPassword Emit
